@@ -18,6 +18,10 @@ class Inconclusive(Exception):
     pass
 
 
+class TLCTimeout(Inconclusive):
+    pass
+
+
 class Ctx:
     """One run of one check."""
 
@@ -129,7 +133,7 @@ class Ctx:
         except subprocess.TimeoutExpired:
             subprocess.run(["pkill", "-f", md], capture_output=True)
             shutil.rmtree(md, ignore_errors=True)
-            raise Inconclusive("TLC timeout: %s %s" % (module, cfg))
+            raise TLCTimeout("TLC timeout: %s %s" % (module, cfg))
         shutil.rmtree(md, ignore_errors=True)
         out = p.stdout + p.stderr
         r = dict(out=out, rc=p.returncode, generated=0, distinct=0, rejected_at=None, error=None)
@@ -167,7 +171,7 @@ class Ctx:
         return r
 
     # ------------------------------------------------------------------ trace validation
-    def validate(self, files, module="TraceAbs.tla", cfg="TraceAbs.cfg", dfs=False, max_rej=12):
+    def validate(self, files, module="TraceAbs.tla", cfg="TraceAbs.cfg", dfs=False, max_rej=12, soft_timeout=None):
         """Validate recording files (ndjson, recordings start with a reset event) against the spec.
         Returns a list of rejections: dict(file, chunk_lines, at, recording_id)."""
         def one(f):
@@ -178,7 +182,16 @@ class Ctx:
                 nlines = sum(1 for _ in open(cur))
                 if nlines == 0:
                     break
-                r = self.tlc(module, cfg, env={"TRACE": cur}, workers=1, dfs=dfs, timeout=3600)
+                try:
+                    r = self.tlc(module, cfg, env={"TRACE": cur}, workers=1, dfs=dfs, timeout=soft_timeout or 3600)
+                except TLCTimeout:
+                    if not soft_timeout:
+                        raise
+                    # a linearization search that does not finish in time decides nothing about these
+                    # recordings: they are counted as unexamined (evidence), not as a failure of the check
+                    self.cov["unexamined_files"] = self.cov.get("unexamined_files", 0) + 1
+                    self.notes.append("TLC did not finish %s within %d s: recordings left unexamined" % (os.path.basename(cur), soft_timeout))
+                    break
                 self.cov["states"] += r["distinct"]
                 self.cov["transitions"] += r["generated"]
                 if r["error"]:
